@@ -358,7 +358,7 @@ def run(ctx, replay):
         "stated length, the gadget grammar and its single-piece mutations; beyond that seeded simulation",
         "imports of files are outside the input space (the parser runs with a location inside an empty directory)",
         "memory exhaustion = Go heap above the cap (default 512 MB; inputs are < 20 KB) observed by an in-process "
-        "watchdog, RLIMIT_AS backstop; non-termination = one row running longer than the row time-out (default 20 s)",
+        "watchdog, RLIMIT_AS backstop; non-termination = the process spends more than the row time-out (default 20 s) of CPU time on one row, or 15 x that of wall-clock time, confirmed by re-running the row alone",
         "well-formedness of names, macro-reference and quotability patterns are computed by the harness per character "
         "class / regular expression; the comparison of trees and all predicates are evaluated by TLC",
         "pipeline validation of the shipped files: real msgpipeline.New on every endpoint block and queue bounce block "
